@@ -526,6 +526,30 @@ func (l *Lang) Linear(shapes map[string]*Shape) *report.RuleResult {
 							bad[k+"/dup:"+ps] = fmt.Sprintf("%s is placed %d times on path [%s]", ps, c, pathLabel(p))
 						}
 					}
+					// coverage of a list taken apart by index: the pieces placed must make up the whole list
+					// ([0] with [1:], [:last] with [last], or an element-wise walk)
+					if sy.Type == "list" && !reported {
+						base := sv.String()
+						has := func(which string) bool {
+							for ps := range parts[idx] {
+								if ps == base+"["+which+"]" || strings.HasPrefix(ps, base+"["+which+"].") || strings.HasPrefix(ps, base+"["+which+"](") {
+									return true
+								}
+							}
+							return false
+						}
+						indexed := false
+						for ps := range parts[idx] {
+							if strings.HasPrefix(ps, base+"[") {
+								indexed = true
+							}
+						}
+						if indexed && !has("i") && !(has("0") && has("1:")) && !(has(":last") && has("last")) {
+							if sh := shapes[name]; sh == nil || !sh.Unknown || true {
+								bad[k+"/drop:elements"] = fmt.Sprintf("only some elements of the list $%d (%s) are placed (%s) on path [%s]: the others are lost from the tree", idx, name, strings.Join(keysOf(parts[idx]), ", "), pathLabel(p))
+							}
+						}
+					}
 					// coverage: every populated field of the carrier types taken apart
 					if sh := shapes[name]; sh != nil && !sy.Terminal {
 						for t := range partT[idx] {
